@@ -95,53 +95,66 @@ def run_stream(case):
     assets = case['assets']
     lbs = case['lookbacks']
     dyn = case.get('entries')
+    split = bool(dyn) and case.get('split', False)
     if dyn:
         uni = q.DynamicUniverse({a: (None if e is None else T0 + pd.Timedelta(days=e)) for a, e in zip(assets, dyn)})
     else:
         uni = q.StaticUniverse(list(assets))
-    sigs = {'momentum': q.MomentumSignal(T0, uni, list(lbs['momentum'])), 'sma': q.SMASignal(T0, uni, list(lbs['sma'])),
-            'vol': q.VolatilitySignal(T0, uni, list(lbs['vol']))}
+    # with `split` the volatility signal follows a static universe of all assets while momentum and SMA follow the
+    # dynamic one: signals in one collection must not feed each other's windows
+    uni_of = {'momentum': uni, 'sma': uni, 'vol': q.StaticUniverse(list(assets)) if split else uni}
+    sigs = {'momentum': q.MomentumSignal(T0, uni_of['momentum'], list(lbs['momentum'])),
+            'sma': q.SMASignal(T0, uni_of['sma'], list(lbs['sma'])),
+            'vol': q.VolatilitySignal(T0, uni_of['vol'], list(lbs['vol']))}
     dh = kit.StubDH()
     coll = q.SignalsCollection(sigs, dh)
-    hist = {a: [] for a in assets}
+    hist = {name: {a: [] for a in assets} for name in sigs}
     nq = 0
     day = 0
     updates = 0
+
+    def members_of(name, t):
+        if name == 'vol' and split:
+            return list(assets)
+        return [a for a in assets if (not dyn) or (dyn[assets.index(a)] is not None and
+                                                   T0 + pd.Timedelta(days=dyn[assets.index(a)]) <= t)]
     for i, op in enumerate(case['ops']):
         if op[0] == 'append':
             a = assets[op[1] % len(assets)]
-            for s in sigs.values():
+            for name, s in sigs.items():
                 s.append(a, op[2])
-            hist[a].append(op[2])
+                hist[name][a].append(op[2])
         else:
             # one collection update: every current member receives its quoted price
             for j, a in enumerate(assets):
                 dh.set(a, op[1][j % len(op[1])])
             t = T0 + pd.Timedelta(days=day)
             day += 1
-            members = [a for a in assets if (not dyn) or (dyn[assets.index(a)] is not None and
-                                                          T0 + pd.Timedelta(days=dyn[assets.index(a)]) <= t)]
             coll.update(t)
             updates += 1
-            for a in members:
-                hist[a].append(dh.q[a][0])
             if coll.warmup != updates:
                 raise Violation('warmup counter %r after %d updates' % (coll.warmup, updates))
             for name, s in sigs.items():
-                if sorted(s.assets) != sorted(set(members) | set(uni.get_assets(T0))):
+                members = members_of(name, t)
+                for a in members:
+                    hist[name][a].append(dh.q[a][0])
+                if sorted(s.assets) != sorted(set(members) | set(uni_of[name].get_assets(T0))):
                     raise Violation('step %d: %s signal tracks %s, universe members so far %s' % (
                         i, name, sorted(s.assets), sorted(members)))
-        nq += check_all(sigs, hist, lbs, 'step %d %s' % (i, op[0]))
+        for name, s in sigs.items():
+            nq += check_all({name: s}, hist[name], lbs, 'step %d %s' % (i, op[0]))
     allb = sorted(set(x for v in lbs.values() for x in v))
-    slides = any(len(h) > min(allb) + 1 for h in hist.values())
+    slides = any(len(h) > min(allb) + 1 for hh in hist.values() for h in hh.values())
     cls = ['dynamic' if dyn else 'static', 'assets_%d' % len(assets)]
+    if split:
+        cls.append('signals_with_different_universes')
     if any(len(v) == 1 for v in lbs.values()):
         cls.append('single_lookback')
-    if any(len(h) == 1 for h in hist.values()):
+    if any(len(h) == 1 for hh in hist.values() for h in hh.values()):
         cls.append('one_price_only')
-    if any(len(h) == 2 for h in hist.values()):
+    if any(len(h) == 2 for hh in hist.values() for h in hh.values()):
         cls.append('two_prices_only')
-    if any(p <= 1.0 for h in hist.values() for p in h):
+    if any(p <= 1.0 for hh in hist.values() for h in hh.values() for p in h):
         cls.append('price_le_1')
     if any(op[0] == 'update' for op in case['ops']):
         cls.append('via_collection')
@@ -166,6 +179,7 @@ def streams(draw):
     mode = draw(st.sampled_from(['append', 'update', 'update_dynamic', 'mixed']))
     if mode == 'update_dynamic':
         case['entries'] = [draw(st.sampled_from([0, 0, 1, 3, 8, None])) for _ in assets]
+        case['split'] = draw(st.booleans())
     n = draw(st.one_of(st.integers(1, 12), st.integers(1, 60)))
     ops = []
     for _ in range(n):
